@@ -216,7 +216,7 @@ func (op *Element[T]) Copy(opCopy *Element[T]) {
 				op.MetaData = &MetaData{}
 			}
 
-			*op.MetaData = *opCopy.MetaData
+			*op.MetaData = *opCopy.MetaData.CopyNew()
 		}
 	}
 }
